@@ -17,19 +17,19 @@ for it in items:
         mods.append(mod)
     lem.append((mod, name, thm))
 hdr = open(header).read()
-script = hdr + "\nSet Printing Width 110.\nSet Printing Depth 1000.\n" + "".join("Check %s.\n" % n for _, n, _ in lem)
+script = hdr + "\nSet Printing Width 110.\nSet Printing Depth 1000.\n" + "".join("Check @%s.\n" % n for _, n, _ in lem)
 p = subprocess.run(["coqtop", "-Q", "/verif/coq", "Mac", "-quiet"], input=script, stdout=subprocess.PIPE, stderr=subprocess.STDOUT, text=True, cwd="/verif/coq")
 txt = p.stdout
 res = {}
 for _, n, _ in lem:
-    m = re.search(r"(?:^|\n)(?:Coq < )*%s\s*\n?\s*:\s(.*?)(?=\n\s*\n|\nCoq <|\Z)" % re.escape(n), txt, re.S)
+    m = re.search(r"(?:^|\n)(?:Coq < )*@?%s\s*\n?\s*:\s(.*?)(?=\n\s*\n|\nCoq <|\Z)" % re.escape(n), txt, re.S)
     if not m:
         print("cannot find Check output for", n); print(txt[-3000:]); sys.exit(1)
     res[n] = re.sub(r"\n\s+", "\n    ", m.group(1).strip())
 with open(out, "w") as f:
     f.write(hdr + "\n")
     for _, n, t in lem:
-        f.write("Theorem %s :\n    %s.\nProof. exact %s. Qed.\n\n" % (t, res[n], n))
+        f.write("Theorem %s :\n    %s.\nProof. exact (@%s). Qed.\n\n" % (t, res[n], n))
     for _, n, t in lem:
         f.write("Print Assumptions %s.\n" % t)
 print("wrote", out, len(lem), "theorems")
